@@ -1038,3 +1038,95 @@ PROPS["C06"] = {
     "cases": c06_cases,
     "explanation": "oracle: a scope analysis of the real output: every use of a generated identifier has a declaration (vue import, helper import, `function _isSlot`, let/const declarator, parameter) in a scope enclosing the use; a default-parameter value does not see the body's declarations; a let/const declaration precedes every statement that eagerly reads it; every imported/declared generated binding is used; generated and user bindings are distinguished by SWC's syntax contexts (identity = name + context)",
 }
+
+
+# ---- C10 ---------------------------------------------------------------------------------------------------
+C10_PREFIX = ["val = 5;", "x = y;", "obj = {};", "cls = 1; cls = 2;", "function g() { const t = <Foo>{k()}</Foo>; return t; }", "const q = () => <Bar>{m()}</Bar>;",
+              "(<></>);", "(<><i/></>);", "const fr = <Fragment>t</Fragment>;", "import { h, Fragment as _Fragment, createVNode as _createVNode } from 'vue';",
+              "import { Fragment } from 'vue';", "(<Comp>{f()}</Comp>);", "(<div v-show={x}/>);", "(<Comp on={{a: 1}}/>);", "list = []; fn1 = null;",
+              "for (const i of list) { cls = i; }", "class Z { m() { val = 1; } }", "const w = (val = 2, 3);", "(<Unk v-model={val}/>);", "function h3(val) { val = 1; }"]
+C10_STMTS = ["const s = <Comp>{val}</Comp>;", "const s = <Comp>{f()}</Comp>;", "const s = <_Fragment>t</_Fragment>;", "const s = <Fragment>{x}</Fragment>;", "const s = <><Comp>{obj}</Comp></>;",
+             "const s = <div class={cls} {...obj}>t {x}</div>;", "const s = <Unk v-slots={slotsObj}>{list}</Unk>;", "const s = () => <Foo>{fn1}</Foo>;", "const s = <KeepAlive><Comp>{x}</Comp></KeepAlive>;",
+             "const s = <Comp on={{click: fn1}} v-model={val}>{val}</Comp>;", "function s() { return <Comp>{val}</Comp>; }", "const s = <Foo>{cls}</Foo>;"]
+
+
+def c10_cases(tier, seed):
+    r = gen.Rng(seed)
+    run, pairs = [], []
+    npre = 3   # statements of PRELUDE
+    n = 0
+    for si, stmt in enumerate(C10_STMTS):
+        for o in ([{}, {"optimize": True}, {"enableObjectSlots": False, "transformOn": True}] if tier != "quick" else [{"optimize": bool(si % 2), "transformOn": True}]):
+            a = {"id": "alone%d_%d" % (si, n), "src": gen.PRELUDE + stmt + "\n", "tsx": False, "opts": o}
+            run.append(a)
+            for pi, pre in enumerate(C10_PREFIX):
+                for qi, suf in enumerate(["", C10_PREFIX[(pi * 7 + si) % len(C10_PREFIX)]]):
+                    if pre.startswith("import") and suf.startswith("import"):
+                        continue
+                    n += 1
+                    k = len([x for x in pre.split(";") if x.strip()]) if not pre.startswith(("function", "class", "for", "import")) else 1
+                    # count top-level statements of the prefix by parsing convention: each prefix is written as k statements
+                    k = {"cls = 1; cls = 2;": 2, "list = []; fn1 = null;": 2}.get(pre, 1)
+                    b = {"id": "ctx%d" % n, "src": gen.PRELUDE + pre + "\n" + stmt + "\n" + suf + "\n", "tsx": False, "opts": o}
+                    run.append(b)
+                    pairs.append({"id": "c10_%d" % n, "mode": "c10:%d:%d" % (npre, npre + k), "a": a["id"], "b": b["id"]})
+    # random: a generated statement alone vs. between generated distractor statements
+    prof = dict(GENERAL_PROFILE); prof["n_stmts"] = [(1, 1)]; prof["p_distractor"] = 0
+    for i in range(budget(tier, 500, 12000)):
+        g = gen.Gen(r, prof)
+        stmt = "const s%d = %s;" % (i, g.element(0))
+        o = std_opts(r)
+        o.pop("pragma", None)
+        pre = [r.pick(C10_PREFIX[:9] + C10_PREFIX[11:]) for _ in range(r.below(3))]
+        pre = [p for p in pre if p not in ("cls = 1; cls = 2;", "list = []; fn1 = null;")]
+        suf = [r.pick(C10_PREFIX[:9] + C10_PREFIX[11:]) for _ in range(r.below(2))]
+        a = {"id": "ra%d" % i, "src": gen.PRELUDE + stmt + "\n", "tsx": False, "opts": o}
+        b = {"id": "rb%d" % i, "src": gen.PRELUDE + "\n".join(pre) + "\n" + stmt + "\n" + "\n".join(suf) + "\n", "tsx": False, "opts": o}
+        run += [a, b]
+        pairs.append({"id": "r%d" % i, "mode": "c10:%d:%d" % (npre, npre + len(pre)), "a": a["id"], "b": b["id"]})
+    return [], run, {"rule": "pair oracle on the real code: 12 JSX statements (sole identifier/call children, Fragment/_Fragment tags, fragments, spreads, v-slots, arrows, KeepAlive, transformOn + v-model, function bodies) transformed ALONE and between 20 prefixes x 2 suffixes (assignments to same-named variables, function/arrow bodies with other JSX needing temporaries, fragment uses, user imports of Fragment/createVNode/h from 'vue', directives, transformOn, loops, classes, shadowing parameters) + %d generated statements between random distractors; the lowered statement must be identical up to renaming of generated identifiers" % budget(tier, 500, 12000),
+                     "pairs": pairs}
+
+
+PROPS["C10"] = {
+    "theorems": ["C10_host_classification_state_free", "C10_fragment_by_name", "C10_no_capture_without_assignment", "C10_assignment_consumed",
+                 "C10_only_assignments_remembered"],
+    "cases": c10_cases,
+    "nontrivial": lambda c, r: True,
+    "explanation": "pair oracle: the lowered statement alone = the lowered statement in context, modulo renaming of generated identifiers within the statement",
+}
+
+
+# ---- C11 ---------------------------------------------------------------------------------------------------
+def c11_cases(tier, seed):
+    r = gen.Rng(seed)
+    run = corpus_cases("C11") + fixture_cases()
+    obs = ["a()", "b.c", "d[e]", "f(g())", "h`t`", "new K()", "i ? j() : k", "(l, m())", "n + o()", "await p", "{q: r()}", "[s(), t]"]
+    hosts = ["div", "Comp", "Unk", "NS.Item", "KeepAlive"]
+    shapes = ["<H A1 {...A2} A3>{C1}{C2}</H>", "<H class={A1} id={A2} class={A3}>{C1}</H>", "<H onClick={A1} {...A2} onClick={A3}/>", "<H v-foo={[A1, A2]} x={A3}>{C1}</H>",
+              "<H v-model={[A1, A2]}>{C1}{C2}</H>", "<H>{C1}</H>", "<H v-show={A1} v-html={A2}/>", "<H on={A1} a={A2}>{C1}<i b={C2}/></H>", "<H v-slots={{s: () => A1}} k={A2}>{C1}</H>",
+              "<H a=<J b={A1}>{A2}</J>>{C1}</H>"]
+    n = 0
+    for host in hosts:
+        for sh in shapes:
+            for k in range(budget(tier, 3, 12)):
+                n += 1
+                vals = [r.pick(obs) for _ in range(5)]
+                s = sh.replace("H", host).replace("J", "Foo")
+                s = s.replace("A1", "x1={%s}" % vals[0] if " A1 " in sh or "H A1" in sh else vals[0]) if False else s
+                s = s.replace("H A1", "%s x1={%s}" % (host, vals[0])).replace("A1", vals[0]).replace("A2", vals[1]).replace("A3", "x3={%s}" % vals[2] if " A3>" in sh and "{A3}" not in sh else vals[2])
+                s = s.replace("C1", vals[3]).replace("C2", vals[4])
+                run.append({"id": "e%d" % n, "src": gen.PRELUDE + "const v = " + s + ";\n", "tsx": False,
+                            "opts": {"transformOn": True, "optimize": bool(n % 2), "mergeProps": n % 3 != 0, "enableObjectSlots": n % 5 != 0}})
+    mods, hist = gen_modules(r, budget(tier, 2500, 60000), GENERAL_PROFILE, std_opts)
+    run += mods
+    return [], run, {"rule": "fixtures + 5 hosts x 10 element shapes with observable expressions (calls, member and index accesses, tagged templates, new, conditionals, sequences, await, object/array literals with calls) in attribute, spread, child, directive value/argument, v-model, v-slots and element-valued-attribute positions + %d generated modules" % len(mods),
+                     "histogram": dict(hist.most_common(30))}
+
+
+PROPS["C11"] = {
+    "theorems": ["plainAttrFlags_frame", "C11_plain_attr_appended", "C11_transformOn_after_earlier_attrs", "C11_child_expression_in_order",
+                 "C11_component_children_lazy", "C11_call_child_once", "C11_fragment_argument_order"],
+    "cases": c11_cases,
+    "explanation": "oracle: the creation trace (tag, props in order with repeated class/style/listeners at their first position, then children of non-component hosts; a sole call child of a component once) and the default-slot trace of every element, computed from the denotation of the input, equal those computed from the evaluation of the real output (temporaries substituted only when assigned exactly once inside the _isSlot test); directive expressions once each",
+}
